@@ -1039,6 +1039,9 @@ impl ParserState {
         self.last_force_bytes_len = usize::MAX;
         self.lexer_stack_top_eos = false;
         self.rows_valid_end = self.num_rows();
+        // the cached mask is keyed by (lexer state, row index) only; after a rollback
+        // a different continuation can reach the same key with a different mask
+        self.bias_cache = None;
 
         self.assert_definitive();
 
